@@ -428,8 +428,8 @@ func (s *Session) onRecord(resp *Response, req *Request) {
 }
 
 func (s *Session) onPlay(resp *Response, req *Request) (err error) {
-	if s.status == statusPlaying {
-		return
+	if s.status == statusPlaying { // 已在播放：PLAY 在该状态下合法，仍需回复
+		return s.response(resp)
 	}
 
 	// 传输模式、会话模式判断
